@@ -3,7 +3,7 @@
 set -e
 cd "$(dirname "$0")"
 # the compiled files Extract.v imports must be up to date and mutually consistent
-DEPS=$(grep -o 'LLIR Require Import.*' Extract.v | sed 's/LLIR Require Import//; s/\.$//' | tr ' ' '\n' | grep . | sed 's|\.|/|g; s|^|theories/|; s|$|.vo|' | tr '\n' ' ')
+DEPS=$(grep -o 'LLIR Require.*' Extract.v | sed 's/LLIR Require Import//; s/LLIR Require//; s/\.$//' | tr ' ' '\n' | grep . | sed 's|\.|/|g; s|^|theories/|; s|$|.vo|' | tr '\n' ' ')
 (cd ../coq && timeout 3000 make -j16 $DEPS > ../.work/driver-make.log 2>&1) || { tail -20 ../.work/driver-make.log; exit 1; }
 coqc -Q ../coq/theories LLIR Extract.v > extract.log 2>&1 || { cat extract.log; exit 1; }
 ocamlfind ocamlopt -w -a -O3 model.mli model.ml main.ml -o ../bin/driver 2>/dev/null || ocamlfind ocamlopt -w -a model.mli model.ml main.ml -o ../bin/driver
